@@ -32,29 +32,68 @@ UNARY_NUMPY_OPS = ['sqrt', 'ceil', 'floor']                     # IEEE-exact in 
 UNARY_ALL_OPS = ['sqrt', 'ceil', 'floor', 'relu', 'relu6', 'hardtanh', 'leaky_relu', 'prelu', 'softshrink', 'softsign',
                  'hardshrink', 'hardswish']
 
-RULE = ('per SIMD context x dtype: every element count 1..4*lanes+1 (1-d) plus 2-d/3-d shapes, row- and column-major '
-        'operands, integer provenance data through the Lean model + NumPy oracle, and eighth-valued random data '
-        '(incl. -0.0) compared bitwise with the scalar evaluator in the same binary; non-trivial = element count '
-        '>= lanes (the packed loop runs) or a broadcast / reduction over more than one element')
+RULE = ('per SIMD context (x86 SSE, x86 AVX, vector extension 128/256/512, SIMDe AVX-512) x dtype (f32, f64): unary ops on every '
+        'element count 1..4*lanes+1 (1-d) plus 2-d/3-d shapes, row- and column-major; binary ops on equal shapes (every count) '
+        'and on every 2-d broadcast pattern (R,C)x{(1,C),(R,1),(1,1)} both ways; outer on 1-d..3-d operand pairs; add/multiply/'
+        'subtract reduce over every axis, axis=-1, axis=None, keepdims on/off, 1-d..4-d shapes; matmul (M,K)x(K,N) with column-major '
+        'rhs. Each structural case carries integer provenance data (lhs id + 1000*rhs id, shuffled distinct summands, products of '
+        '2s and 3s: non-zero, non-arange) and is answered three ways: SIMD evaluator (harness appends MISMATCH when it differs from '
+        'the scalar evaluator in the same binary), Lean model, NumPy. Value cases use eighth-valued random data compared bitwise '
+        '(element-wise) or within a re-association tolerance derived from the operand magnitudes (reductions, matmul); special '
+        'values (-0.0, NaN, inf, denormals) go through every unary op. The pure enumerators are diffed tuple by tuple against the '
+        'Lean model for lanes 2,4,8,16. Structural and memory-unsafe cases are repeated under ASan+UBSan. '
+        'non-trivial = the packed path runs (element count / row length >= lanes)')
 EXHAUSTIVE = {'quick': False, 'thorough': False}
 ANCHORS = {
-    'NmVerif.Simd.simdUnary': 'array::evaluator_t<view,simd_base_t<tag>>::eval_unary (eval/simd/evaluator/ufunc.hpp:38-86)',
+    'NmVerif.Simd.simdUnary / packedStarts / tailIdx': 'array::evaluator_t<view,simd_base_t<tag>>::eval_unary (eval/simd/evaluator/ufunc.hpp:38-86)',
+    'NmVerif.Simd.simdBinarySame': 'eval_binary, SAME_SHAPE branch (evaluator/ufunc.hpp:404-419)',
+    'NmVerif.Simd.simdBinary2d / binary2dStep': 'eval_binary, BROADCASTED_2D branch (evaluator/ufunc.hpp:420-451)',
+    'NmVerif.Simd.binary2dShape / binary2d / binary2dAt': 'index::binary_2d_simd_shape / binary_2d_simd / binary_2d_simd_enumerator_t::operator[] (index/ufunc.hpp:14-134)',
+    'NmVerif.Simd.simdReduceAll': 'eval_reduction, out_size == 1 (evaluator/ufunc.hpp:199-230)',
+    'NmVerif.Simd.simdReduceAxis / simdReduceVertical / simdReduceHorizontal': 'eval_reduction, index axis (evaluator/ufunc.hpp:231-351)',
+    'NmVerif.Simd.reductionNdReshape / reduction2dShape / reduction2d / reductionAt': 'index::reduction_nd_reshape / reduction_2d_shape / reduction_2d / reduction_2d_enumerator (index/ufunc.hpp:148-324)',
+    'NmVerif.Simd.simdOuter': 'eval_outer (evaluator/ufunc.hpp:95-171)',
+    'NmVerif.Simd.outerSimdShape / outerSimd / outerAt': 'index::outer_simd_shape / outer_simd / outer_simd_enumerator_t::operator[] (index/ufunc.hpp:326-499)',
+    'NmVerif.Simd.simdMatmul': 'evaluator_t<matmul view,simd_base_t<tag>>::eval_matmul (evaluator/matmul.hpp:23-121)',
+    'NmVerif.Simd.matmulInnerSize / matmulInner': 'index::matmul_simd_inner_size / matmul_simd_inner (index/matmul.hpp:39-105)',
+    'NmVerif.Simd.scalarUnary / scalarBinary2d / scalarReduceAxis / scalarOuter': 'array::evaluator_t<view,none_t> (array/eval.hpp) on ufunc / broadcast / reduce / outer views = NumPy',
 }
 ASSUMPTIONS = [
     'intrinsic wrappers are lane-wise (Props.C12.LaneWise1/LaneWise2): op.eval on a register = the scalar functor on each lane; '
-    'hypothesis of the theorems, validated on this CPU by the bitwise IMPL-simd vs IMPL-scalar comparison of every run',
-    'output of the evaluators is the row-major ndarray_t the default resolver produces (observed; modelled as such)',
+    'hypothesis of the theorems (never an axiom), validated on this CPU by the bitwise IMPL-simd vs IMPL-scalar comparison of every run',
+    'the output of the evaluators is the row-major ndarray_t the default resolver produces (observed on every case; modelled as such)',
+    'size_t arithmetic does not wrap (element counts far below 2^64 in every case run)',
+    'SIMDe AVX-512: hardshrink/softshrink/hardswish and double matmul do not compile against the installed SIMDe (missing '
+    'simde_kxor_mask*, simd_op_t<simde_avx512_t,double>::fmadd uses the float intrinsic): not provided, not run',
 ]
-PARTIAL = []
+PARTIAL = [
+    'reductions over an axis other than the last: simdReduceVertical_eq_loop/_eq_fold are proved on the 2-d forms (R,C)/(Ro,C) that '
+    'reduction_nd_reshape gives the n-d operand and output (hypotheses hRC/hOut name them), for all Ro, A, C, lanes. Not proved: that '
+    'reducing an n-d row-major array over a non-last `axis` is this problem, i.e. simdReduceAxis = scalarReduceAxis on the n-d NDA '
+    '(full statement kept as a comment in Props/C12.lean); proved for the last axis (simdReduceAxis_lastAxis_eq_scalar); the '
+    'non-last-axis identification is checked by the NumPy oracle on every run',
+    'outer: outer_covers_once (every output cell written exactly once, any operand rank) is proved; that the lhs/rhs offsets of each step '
+    'are the outer-product operands, and the evaluator-level simdOuter = scalarOuter, are not (correspondence + NumPy only)',
+    'matmul: no theorem (model + enumerator diff + NumPy oracle only)',
+    'column-major operands, (1,1) broadcast operands under a multi-row result, ops whose identity is not 0 in one-element reductions, '
+    'subtract.reduce, negative axes other than -1, NaN/-0.0 through min/max-built activations are outside the theorem domains: '
+    'known findings of the unchanged tree (counterexample theorems in Props/C12.lean where the model covers them)',
+]
 MANIFEST = dict(
-    text='Proof: Lean theorems over all element counts and all lane counts > 0 for the packed loop + scalar tail '
-         '(closed form of the chunk starts, every packed access inside the buffer, chunks and tail partition [0,n), '
-         'SIMD unary = scalar evaluator on row-major operands) with the intrinsic wrappers as an explicit lane-wise '
-         'hypothesis; tied to the C++ by a differential run of array::fn(args, ctx) against array::fn(args), the Lean '
-         'model and NumPy on every check.',
-    note='Lean kernel + propext/Classical.choice/Quot.sound; model hand-written, fidelity rests on the correspondence run; '
-         'lane-wise behaviour of the intrinsics is a hypothesis, measured bitwise on this CPU only.',
-    technique='Lean 4 induction proofs over element counts / lane counts + hardware differential (SIMD vs scalar evaluator)')
+    text='Proof: 26 Lean theorems over all element counts / row lengths and all lane counts > 0: closed form of the packed loop, every '
+         'packed access inside its buffer, packed chunks + tail partition [0,n); SIMD unary / same-shape binary = scalar evaluator; '
+         '2-d broadcasting binary: every output cell written exactly once, operand offsets = NumPy broadcasting, offsets in bounds, '
+         'evaluator = NumPy broadcasting; full reduction = left fold over a commutative monoid when the literal 0 is its identity; '
+         'horizontal reduction with identity padding = monoid sum of every row = the n-d scalar reference over the last axis; vertical reduction = scalar row accumulation loop = '
+         'column-wise left fold; outer enumerator covers every output cell once (any rank). Intrinsic wrappers are an explicit '
+         'lane-wise hypothesis. Tied to the C++ by a differential run of array::fn(args, ctx) for six SIMD contexts x float/double '
+         'against array::fn(args) in the same binary, the Lean model and NumPy, plus the pure enumerators tuple by tuple and an ASan run.',
+    note='Lean kernel + propext/Classical.choice/Quot.sound; model hand-written, fidelity rests on the correspondence run; lane-wise '
+         'behaviour of the intrinsics is a hypothesis measured bitwise on this CPU only; reductions are proved on the 2-d form the '
+         'evaluator reshapes to (n-d identification by oracle); matmul and outer operand offsets by correspondence only; seven '
+         'known findings of the unchanged tree (column-major operands, full reduction from 0, subtract.reduce, negative axes, '
+         '(1,1) broadcast operand, NaN/-0.0 in min/max activations) are listed, not hidden.',
+    technique='Lean 4 induction proofs over element counts / lane counts + hardware differential (SIMD vs scalar evaluator, ASan)')
 
 
 def lanes_of(ctx, dt):
